@@ -2,6 +2,7 @@ package value
 
 import (
 	"fmt"
+	"reflect"
 	"strings"
 )
 
@@ -101,8 +102,37 @@ func (val MapValue) walkValue(walkContext *WalkContext, v interface{}, setter Se
 		}
 		return nil
 	}
+	// any other slice of interface values (for instance the array type a store's decoder
+	// produces instead of []interface{}) is walked element by element as well
+	if rv := reflect.ValueOf(v); rv.IsValid() && rv.Kind() == reflect.Slice && rv.Type().Elem().Kind() == reflect.Interface {
+		return val.walkReflectSlice(walkContext, rv, callback)
+	}
 	walkContext.Setter = setter
 	return callback(walkContext, v)
+}
+
+func (val MapValue) walkReflectSlice(walkContext *WalkContext, slice reflect.Value, callback MapValueCallback) error {
+	for i := 0; i < slice.Len(); i++ {
+		err := func() error {
+			path := fmt.Sprintf("[%d]", i)
+			walkContext.pushPath(path)
+			defer walkContext.reset()
+
+			elem := slice.Index(i)
+			setter := func(v interface{}) {
+				if v == nil {
+					elem.Set(reflect.Zero(elem.Type()))
+					return
+				}
+				elem.Set(reflect.ValueOf(v))
+			}
+			return val.walkValue(walkContext, elem.Interface(), setter, callback)
+		}()
+		if err != nil {
+			return err
+		}
+	}
+	return nil
 }
 
 type StringSetter func(s string)
